@@ -27,7 +27,21 @@ pub struct Opts<'a> {
     pub horizon: Duration,
 }
 
+/// Runs the engine once; a run that was ended by SIGTERM/SIGKILL from outside (not by this
+/// driver's own horizon) says nothing about the engine and is repeated, up to twice.
 pub fn run(o: &Opts, input: &[u8]) -> Result<RunResult, String> {
+    let mut last = run_once(o, input)?;
+    for _ in 0..2 {
+        if !last.timed_out && matches!(last.signal, Some(9) | Some(15)) {
+            last = run_once(o, input)?;
+        } else {
+            break;
+        }
+    }
+    Ok(last)
+}
+
+fn run_once(o: &Opts, input: &[u8]) -> Result<RunResult, String> {
     let mut cmd = Command::new(o.exe);
     cmd.stdin(Stdio::piped()).stdout(Stdio::piped()).stderr(Stdio::null());
     cmd.env_remove("FLOUNDER_VERIF_NODE_CLOCK").env_remove("FLOUNDER_VERIF_ZSEED");
